@@ -38,11 +38,17 @@ def plan(tier, seed):
         groups = []
         for n in order:
             o = G.OPS[n]
-            dims = rng.choice(o.dims)
-            # configurations supported by every flavour this program will be built in are decided per flavour below
-            groups.append((o, dims))
+            with_none, without = split_dims(o)
+            if quick:
+                # quick: the main group never has a None argument (the None branch is a second, separate group), so that
+                # e.g. the axes of a transpose are always exercised under every seed
+                groups.append((o, rng.choice(without or with_none)))
+                if with_none and without:
+                    groups.append((o, rng.choice(with_none)))
+            else:
+                groups.append((o, o.dims[(rnd + rng.randrange(len(o.dims))) % len(o.dims)]))
         # pack groups into programs of ~3 operations
-        per = 3
+        per = 4 if quick else 3
         for k in range(0, len(groups), per):
             chunk = groups[k:k + per]
             pi = len(progs)
@@ -79,7 +85,9 @@ def plan(tier, seed):
         rng.shuffle(order)
         for k, n in enumerate(order):
             o = G.OPS[n]
-            dims = rng.choice(o.dims)
+            with_none, without = split_dims(o)
+            rich = [d for d in (without or with_none) if d[0] >= 2] or (without or with_none)
+            dims = rng.choice(rich) if quick else o.dims[(rnd + rng.randrange(len(o.dims))) % len(o.dims)]
             if quick:
                 flavors = ["asan"] + ([["clang"], ["nostl"]][k % 2] if k < 6 else [])
             else:
@@ -105,6 +113,16 @@ def plan(tier, seed):
         want = set(os.environ["C09_OPS"].split(","))
         progs = [(p, f) for (p, f) in progs if any(g.op.name in want for g in p.groups)]
     return progs
+
+
+def split_dims(o):
+    """dims values of o whose value sets contain a None argument / do not"""
+    r = random.Random(7)
+    wn, wo = [], []
+    for d in o.dims:
+        v = o.gen(r, d)
+        (wn if any(x is None for x in v.values()) else wo).append(d)
+    return wn, wo
 
 
 def targets(tier, seed):
@@ -394,16 +412,31 @@ def has_exc(toks):
     return toks is not None and "EXC" in toks
 
 
+def parse_hk(t, tag, hk):
+    """<tag> then for clamp and capacity: violations, first value, first bound, events"""
+    if t.peek() != tag:
+        return
+    t.s()
+    d = {}
+    for site in ("clamp", "svec_capacity"):
+        d[site] = (t.i(), t.i(), t.i(), t.i())
+    hk[tag] = d
+
+
 def parse_index_record(toks):
     t = Tok(toks)
     if t.peek() == "SKIP":
         return None
+    hk = {}
     t.expect("TR")
     tr = parse_index_traits(t)
+    parse_hk(t, "HK0", hk)
+    tr["hk"] = hk
     if t.peek() == "EXC":
         return ("EXC", " ".join(t.t[t.p + 1:t.p + 3])), tr
     t.expect("RES")
     res = parse_any(t)
+    parse_hk(t, "HK1", hk)
     return res, tr
 
 
@@ -478,7 +511,8 @@ def parse_view_record(toks):
     t = Tok(toks)
     if t.peek() == "SKIP":
         return None
-    d = {"opd": []}
+    d = {"opd": [], "hk": {}}
+    parse_hk(t, "HK0", d["hk"])
     while t.peek() == "OPD":
         t.s()
         d["opd"].append(parse_array_traits(t))
@@ -486,10 +520,12 @@ def parse_view_record(toks):
     d["v"] = t.array()
     t.expect("VT")
     d["vt"] = parse_array_traits(t)
+    parse_hk(t, "HK1", d["hk"])
     t.expect("E")
     d["e"] = t.array()
     t.expect("ET")
     d["et"] = parse_array_traits(t)
+    parse_hk(t, "HK2", d["hk"])
     return d
 
 
@@ -585,6 +621,8 @@ def judge_c09(ctx, recs, info):
             ctx.violation("%s:%s:deviates" % (o.name, cc), "unparsable record of %s in configuration %s: %s (%s)" % (o.name, r.inst.cfg, e, " ".join(r.toks[:40])), det)
             continue
         if p is None:
+            if r.toks[:2] == ["SKIP", "resize"]:
+                continue        # judged by C11 (operand type refuses a shape inside its static bounds)
             ctx.inconc("instance %s of %s refused its own case %s" % (r.inst.name, r.prog, r.line))
             continue
         ctx.ev()
@@ -644,7 +682,7 @@ CLAMP, SVEC_CAP = 6, 4
 def judge_c11(ctx, recs, info):
     matrix = {}
     types_seen = {}
-    hook_events = {CLAMP: 0, SVEC_CAP: 0}
+    hook_events = {"clamp": 0, "svec_capacity": 0}
     ntraits = 0
     for r in recs:
         o = r.g.op
@@ -655,26 +693,26 @@ def judge_c11(ctx, recs, info):
             # crashes are C09/C02 material; here only static knowledge is judged
             continue
         exp = expected_of(r)
-        for site, nm_ in ((CLAMP, "clamp"), (SVEC_CAP, "svec_capacity")):
-            h = r.hooks.get(site)
-            if h:
-                hook_events[site] += h[0]
-                if h[1]:
-                    ctx.violation("%s:%s:hook:%s" % (o.name, cc, nm_),
-                                  "%s(%s) configuration %s [%s]: %s (value %d, bound %d) while building/evaluating the result" % (
-                                      o.name, vals_brief(r), r.inst.cfg, r.flavor,
-                                      "a clipped integer stored a different value" if site == CLAMP else "a static_vector was asked to exceed its capacity", h[2], h[3]), det)
         try:
             if o.family == "view":
                 p = parse_view_record(r.toks)
                 if p is None:
+                    if r.toks[:2] == ["SKIP", "resize"]:
+                        ctx.ev()
+                        ks = [ac.kind for a, ac in zip(o.args, G.cfg_parse(r.inst.cfg)) if a.typ == "arr"]
+                        ctx.violation("operand:%s:resize_refused" % "+".join(sorted(set(ks))),
+                                      "%s(%s) configuration %s [%s]: an operand type refused resize() to a shape inside its static bounds (template shape %s)" % (
+                                          o.name, vals_brief(r), r.inst.cfg, r.flavor, [r.g.sig[a.name]["S"] for a in o.args if a.typ == "arr"]), det)
                     continue
                 ctx.ev()
-                chk = [("operand%d" % i, t, None) for i, t in enumerate(p["opd"])]
-                chk.append(("view", p["vt"], exp))
-                chk.append(("eval", p["et"], exp))
-                for where, tr, ex in chk:
-                    ntraits += check_array_traits(ctx, o, cc, r, where, tr, ex, det)
+                akinds = [ac.kind for a, ac in zip(o.args, G.cfg_parse(r.inst.cfg)) if a.typ == "arr"]
+                judge_hooks(ctx, o, cc, r, p["hk"], det, hook_events, "+".join(sorted(set(akinds))))
+                # the static knowledge of an operand type does not depend on the operation: one key per array kind
+                chk = [("operand", t, None, "operand:%s" % akinds[i]) for i, t in enumerate(p["opd"])]
+                chk.append(("view", p["vt"], exp, "%s:%s:view" % (o.name, cc)))
+                chk.append(("eval", p["et"], exp, "%s:%s:eval" % (o.name, cc)))
+                for where, tr, ex, kb in chk:
+                    ntraits += check_array_traits(ctx, o, kb, r, where, tr, ex, det)
                     k = (tr.get("fs") is not None, tr.get("fd") is not None, tr.get("fz") is not None, tr.get("bd") is not None, tr.get("bz") is not None)
                     types_seen.setdefault("%s:%s" % (o.name, where), set()).add((ck, k))
                 m = matrix.setdefault(o.name, {})
@@ -690,6 +728,7 @@ def judge_c11(ctx, recs, info):
                     continue
                 ctx.ev()
                 res, tr = p
+                judge_hooks(ctx, o, cc, r, tr["hk"], det, hook_events, None)
                 res = ("N",) if res[0] == "EXC" else normalise(o, res)
                 ntraits += check_index_traits(ctx, o, cc, r, res, tr, exp, det)
                 m = matrix.setdefault(o.name, {})
@@ -701,8 +740,34 @@ def judge_c11(ctx, recs, info):
                     ctx.sample(dict(op=o.name, config=r.inst.cfg, values=vals_brief(r), static=tr, runtime=str(res)))
         except (ValueError, IndexError) as e:
             ctx.violation("%s:%s:malformed" % (o.name, cc), "unparsable record: %s (%s)" % (e, " ".join(r.toks[:40])), det)
-    return dict(matrix=matrix, traits_checked=ntraits, hook_events={"clamp": hook_events[CLAMP], "svec_capacity": hook_events[SVEC_CAP]},
+    return dict(matrix=matrix, traits_checked=ntraits, hook_events=hook_events,
                 result_type_classes={k: len(v) for k, v in sorted(types_seen.items())})
+
+
+def judge_hooks(ctx, o, cc, r, hk, det, totals, akinds):
+    """CLAMP / SVEC_CAPACITY violations per phase of an instance.
+    HK0 = building the arguments: index arguments are built by the harness inside their bounds (a violation there is a harness
+    error -> inconclusive); array operands are built by the library's own ndarray constructor / resize -> keyed by array kind.
+    HK1 = the call (view built and read), HK2 = evaluation."""
+    msg = {"clamp": "a clipped integer stored a different value", "svec_capacity": "a static_vector was asked to exceed its capacity"}
+    for tag, d in hk.items():
+        for site, (viol, v, b, ev) in d.items():
+            totals[site] += ev
+            if not viol:
+                continue
+            if tag == "HK0" and akinds is None:
+                ctx.inconc("harness built an index argument outside its bounds in %s (%s): %s" % (r.inst.name, r.line, site))
+                continue
+            if tag == "HK0":
+                key = "operand:%s:hook:%s" % (akinds, site)
+                when = "while the operand was constructed / resized / filled"
+            elif o.family == "view":
+                key = "%s:%s:%s:hook:%s" % (o.name, cc, "view" if tag == "HK1" else "eval", site)
+                when = "while the view was built and read" if tag == "HK1" else "while the view was evaluated"
+            else:
+                key = "%s:%s:hook:%s" % (o.name, cc, site)
+                when = "while the result was computed"
+            ctx.violation(key, "%s(%s) configuration %s [%s]: %s (value %d, bound %d) %s" % (o.name, vals_brief(r), r.inst.cfg, r.flavor, msg[site], v, b, when), det)
 
 
 def check_index_traits(ctx, o, ck, r, res, tr, exp, det):
@@ -748,13 +813,13 @@ def check_index_traits(ctx, o, ck, r, res, tr, exp, det):
     return n
 
 
-def check_array_traits(ctx, o, ck, r, where, tr, exp, det):
+def check_array_traits(ctx, o, keybase, r, where, tr, exp, det):
     n = 0
     if tr.get("num") or tr.get("nothing") or "rs" not in tr:
         return 0
 
     def bad(trait, msg):
-        ctx.violation("%s:%s:%s:%s" % (o.name, ck, where, trait), "%s(%s) configuration %s [%s] %s: %s" % (o.name, vals_brief(r), r.inst.cfg, r.flavor, where, msg), det)
+        ctx.violation("%s:%s" % (keybase, trait), "%s(%s) configuration %s [%s] %s: %s" % (o.name, vals_brief(r), r.inst.cfg, r.flavor, where, msg), det)
 
     objs = [("object", tr["rs"], tr["rd"], tr["rz"])]
     if exp is not None and exp not in (G.INVALID, G.NOTHING) and exp[0] == "A":
